@@ -66,6 +66,49 @@ impl<'s> Semantics<'s> {
     }
 
     /// Convenience function set set the zf based on result
+    /// The count operand of a shift or rotate as the processor uses it: masked
+    /// to five bits (six for 64-bit operands) and widened to the operand size.
+    fn shift_count(
+        &self,
+        block: &mut Block,
+        operand: &cs_x86_op,
+        bits: usize,
+    ) -> Result<Expression, Error> {
+        let count = self.operand_load(block, operand)?;
+        let count = match count.bits().cmp(&bits) {
+            std::cmp::Ordering::Less => Expr::zext(bits, count)?,
+            std::cmp::Ordering::Greater => Expr::trun(bits, count)?,
+            std::cmp::Ordering::Equal => count,
+        };
+        let mask = if bits == 64 { 0x3f } else { 0x1f };
+        Expr::and(count, expr_const(mask, bits))
+    }
+
+    /// Shifts and rotates leave the flags alone when the masked count is zero.
+    fn set_flag_unless_zero_count(
+        &self,
+        block: &mut Block,
+        flag: &str,
+        count: &Expression,
+        value: Expression,
+    ) -> Result<(), Error> {
+        let count_is_nonzero = Expr::cmpneq(count.clone(), expr_const(0, count.bits()))?;
+        block.assign(
+            scalar(flag, 1),
+            Expr::ite(count_is_nonzero, value, expr_scalar(flag, 1))?,
+        );
+        Ok(())
+    }
+
+    fn msb(&self, value: Expression) -> Result<Expression, Error> {
+        let bits = value.bits();
+        Expr::trun(1, Expr::shr(value, expr_const(bits as u64 - 1, bits))?)
+    }
+
+    fn lsb(&self, value: Expression) -> Result<Expression, Error> {
+        Expr::trun(1, value)
+    }
+
     pub fn set_zf(&self, block: &mut Block, result: Expression) -> Result<(), Error> {
         let expr = Expr::cmpeq(result.clone(), expr_const(0, result.bits()))?;
         block.assign(scalar("ZF", 1), expr);
@@ -3322,63 +3365,26 @@ impl<'s> Semantics<'s> {
 
             // get operands
             let lhs = self.operand_load(block, &detail.operands[0])?;
-            let count = self.operand_load(block, &detail.operands[1])?;
+            let bits = lhs.bits();
+            let count = self.shift_count(block, &detail.operands[1], bits)?;
 
-            let mut count = match lhs.bits() {
-                8 => Expr::and(count.clone(), expr_const(0x7, count.bits()))?,
-                16 => Expr::and(count.clone(), expr_const(0xf, count.bits()))?,
-                32 => Expr::and(count.clone(), expr_const(0x1f, count.bits()))?,
-                64 => Expr::and(count.clone(), expr_const(0x3f, count.bits()))?,
-                _ => {
-                    return Err(Error::Custom(format!(
-                        "Unsupported rol bits {}",
-                        count.bits()
-                    )))
-                }
-            };
-
-            if count.bits() < lhs.bits() {
-                count = Expr::zext(lhs.bits(), count)?;
-            }
-
-            let shift_left_bits = count;
-            let shift_right_bits = Expr::sub(
-                expr_const(lhs.bits() as u64, lhs.bits()),
-                shift_left_bits.clone(),
+            // rotate by the masked count modulo the operand size
+            let amount = Expr::modu(count.clone(), expr_const(bits as u64, bits))?;
+            let complement = Expr::sub(expr_const(bits as u64, bits), amount.clone())?;
+            let expr = Expr::or(
+                Expr::shl(lhs.clone(), amount)?,
+                Expr::shr(lhs, complement)?,
             )?;
 
-            let result = Expr::or(
-                Expr::shl(lhs.clone(), shift_left_bits)?,
-                Expr::shr(lhs, shift_right_bits)?,
-            )?;
+            // CF is the bit rotated into the other end; OF is only defined
+            // for a count of one. SF and ZF are not affected.
+            let cf = self.lsb(expr.clone())?;
+            let of = Expr::xor(self.msb(expr.clone())?, cf.clone())?;
 
-            // CF is the bit sent from one end to the other. In our case, it should be LSB of result
-            block.assign(scalar("CF", 1), Expr::trun(1, result.clone())?);
+            self.set_flag_unless_zero_count(block, "CF", &count, cf)?;
+            self.set_flag_unless_zero_count(block, "OF", &count, of)?;
 
-            // OF is XOR of two most-significant bits of result
-            block.assign(
-                scalar("OF", 1),
-                Expr::xor(
-                    Expr::trun(
-                        1,
-                        Expr::shr(
-                            result.clone(),
-                            expr_const(result.bits() as u64 - 1, result.bits()),
-                        )?,
-                    )?,
-                    Expr::trun(
-                        1,
-                        Expr::shr(
-                            result.clone(),
-                            expr_const(result.bits() as u64 - 2, result.bits()),
-                        )?,
-                    )?,
-                )?,
-            );
-
-            // SF/ZF are unaffected
-
-            self.operand_store(block, &detail.operands[0], result)?;
+            self.operand_store(block, &detail.operands[0], expr)?;
 
             block.index()
         };
@@ -3397,73 +3403,29 @@ impl<'s> Semantics<'s> {
 
             // get operands
             let lhs = self.operand_load(block, &detail.operands[0])?;
-            let count = self.operand_load(block, &detail.operands[1])?;
+            let bits = lhs.bits();
+            let count = self.shift_count(block, &detail.operands[1], bits)?;
 
-            let mut count = match lhs.bits() {
-                8 => Expr::and(count.clone(), expr_const(0x7, count.bits()))?,
-                16 => Expr::and(count.clone(), expr_const(0xf, count.bits()))?,
-                32 => Expr::and(count.clone(), expr_const(0x1f, count.bits()))?,
-                64 => Expr::and(count.clone(), expr_const(0x3f, count.bits()))?,
-                _ => {
-                    return Err(Error::Custom(format!(
-                        "Unsupported ror bits {}",
-                        count.bits()
-                    )))
-                }
-            };
-
-            if count.bits() < lhs.bits() {
-                count = Expr::zext(lhs.bits(), count)?;
-            }
-
-            let shift_right_bits = count;
-            let shift_left_bits = Expr::sub(
-                expr_const(lhs.bits() as u64, lhs.bits()),
-                shift_right_bits.clone(),
+            // rotate by the masked count modulo the operand size
+            let amount = Expr::modu(count.clone(), expr_const(bits as u64, bits))?;
+            let complement = Expr::sub(expr_const(bits as u64, bits), amount.clone())?;
+            let expr = Expr::or(
+                Expr::shr(lhs.clone(), amount)?,
+                Expr::shl(lhs, complement)?,
             )?;
 
-            let result = Expr::or(
-                Expr::shl(lhs.clone(), shift_left_bits)?,
-                Expr::shr(lhs, shift_right_bits)?,
+            // CF is the bit rotated into the other end; OF is only defined
+            // for a count of one. SF and ZF are not affected.
+            let cf = self.msb(expr.clone())?;
+            let of = Expr::xor(
+                cf.clone(),
+                Expr::trun(1, Expr::shr(expr.clone(), expr_const(bits as u64 - 2, bits))?)?,
             )?;
 
-            // CF is the bit sent from one end to the other. In our case, it should be MSB of result
-            block.assign(
-                scalar("CF", 1),
-                Expr::trun(
-                    1,
-                    Expr::shr(
-                        result.clone(),
-                        expr_const(result.bits() as u64 - 1, result.bits()),
-                    )?,
-                )?,
-            );
+            self.set_flag_unless_zero_count(block, "CF", &count, cf)?;
+            self.set_flag_unless_zero_count(block, "OF", &count, of)?;
 
-            // OF is XOR of two most-significant bits of result
-            block.assign(
-                scalar("OF", 1),
-                Expr::xor(
-                    Expr::trun(
-                        1,
-                        Expr::shr(
-                            result.clone(),
-                            expr_const(result.bits() as u64 - 1, result.bits()),
-                        )?,
-                    )?,
-                    Expr::trun(
-                        1,
-                        Expr::shr(
-                            result.clone(),
-                            expr_const(result.bits() as u64 - 2, result.bits()),
-                        )?,
-                    )?,
-                )?,
-            );
-
-            // SF/ZF are unaffected
-
-            // store result
-            self.operand_store(block, &detail.operands[0], result)?;
+            self.operand_store(block, &detail.operands[0], expr)?;
 
             block.index()
         };
@@ -3509,35 +3471,23 @@ impl<'s> Semantics<'s> {
 
             // get operands
             let lhs = self.operand_load(block, &detail.operands[0])?;
-            let mut rhs = self.operand_load(block, &detail.operands[1])?;
+            let bits = lhs.bits();
+            let count = self.shift_count(block, &detail.operands[1], bits)?;
+            let count_minus_one = Expr::sub(count.clone(), expr_const(1, bits))?;
 
-            if lhs.bits() != rhs.bits() {
-                rhs = Expr::zext(lhs.bits(), rhs)?;
-            }
-
-            // Do the SAR
-            let expr = Expr::ashr(lhs.clone(), rhs.clone())?;
+            let expr = Expr::ashr(lhs.clone(), count.clone())?;
 
             // CF is the last bit shifted out
-            // This will give us a bit mask if rhs is not equal to zero
-            let non_zero_mask = Expr::sub(
-                expr_const(0, rhs.bits()),
-                Expr::zext(
-                    rhs.bits(),
-                    Expr::cmpneq(rhs.clone(), expr_const(0, rhs.bits()))?,
-                )?,
-            )?;
-            // This shifts lhs right by (rhs - 1)
-            let cf = Expr::shr(lhs, Expr::sub(rhs.clone(), expr_const(1, rhs.bits()))?)?;
-            // Apply mask
-            let cf = Expr::trun(1, Expr::and(cf, non_zero_mask)?)?;
-            block.assign(scalar("CF", 1), cf);
+            let cf = self.lsb(Expr::ashr(lhs.clone(), count_minus_one)?)?;
+            // OF is only defined for a count of one
+            let of = expr_const(0, 1);
+            let zf = Expr::cmpeq(expr.clone(), expr_const(0, bits))?;
+            let sf = self.msb(expr.clone())?;
 
-            // OF is the last bit shifted out
-            block.assign(scalar("OF", 1), expr_const(0, 1));
-
-            self.set_zf(block, expr.clone())?;
-            self.set_sf(block, expr.clone())?;
+            self.set_flag_unless_zero_count(block, "CF", &count, cf)?;
+            self.set_flag_unless_zero_count(block, "OF", &count, of)?;
+            self.set_flag_unless_zero_count(block, "ZF", &count, zf)?;
+            self.set_flag_unless_zero_count(block, "SF", &count, sf)?;
 
             self.operand_store(block, &detail.operands[0], expr)?;
 
@@ -3746,46 +3696,23 @@ impl<'s> Semantics<'s> {
 
             // get operands
             let lhs = self.operand_load(block, &detail.operands[0])?;
-            let mut rhs = self.operand_load(block, &detail.operands[1])?;
+            let bits = lhs.bits();
+            let count = self.shift_count(block, &detail.operands[1], bits)?;
+            let count_minus_one = Expr::sub(count.clone(), expr_const(1, bits))?;
 
-            if lhs.bits() != rhs.bits() {
-                rhs = Expr::zext(lhs.bits(), rhs)?;
-            }
-
-            // Do the SHL
-            let expr = Expr::shl(lhs.clone(), rhs.clone())?;
+            let expr = Expr::shl(lhs.clone(), count.clone())?;
 
             // CF is the last bit shifted out
-            // This will give us a bit mask if rhs is not equal to zero
-            let non_zero_mask = Expr::sub(
-                expr_const(0, rhs.bits()),
-                Expr::zext(
-                    rhs.bits(),
-                    Expr::cmpneq(rhs.clone(), expr_const(0, rhs.bits()))?,
-                )?,
-            )?;
-            // Shift lhs left by (rhs - 1), putting the last-shifted-out bit at the MSB
-            let cf = Expr::shl(lhs, Expr::sub(rhs.clone(), expr_const(1, rhs.bits()))?)?;
-            // Extract MSB (shift right by bits-1), then apply non-zero mask
-            let cf = Expr::shr(cf.clone(), expr_const(cf.bits() as u64 - 1, cf.bits()))?;
-            let cf = Expr::trun(1, Expr::and(cf, non_zero_mask)?)?;
-            block.assign(scalar("CF", 1), cf.clone());
+            let cf = self.msb(Expr::shl(lhs.clone(), count_minus_one)?)?;
+            // OF is only defined for a count of one
+            let of = Expr::xor(self.msb(expr.clone())?, cf.clone())?;
+            let zf = Expr::cmpeq(expr.clone(), expr_const(0, bits))?;
+            let sf = self.msb(expr.clone())?;
 
-            // OF (count==1): OF = MSB(result) XOR CF
-            let of = Expr::xor(
-                cf,
-                Expr::trun(
-                    1,
-                    Expr::shr(
-                        expr.clone(),
-                        expr_const(expr.bits() as u64 - 1, expr.bits()),
-                    )?,
-                )?,
-            )?;
-            block.assign(scalar("OF", 1), of);
-
-            self.set_zf(block, expr.clone())?;
-            self.set_sf(block, expr.clone())?;
+            self.set_flag_unless_zero_count(block, "CF", &count, cf)?;
+            self.set_flag_unless_zero_count(block, "OF", &count, of)?;
+            self.set_flag_unless_zero_count(block, "ZF", &count, zf)?;
+            self.set_flag_unless_zero_count(block, "SF", &count, sf)?;
 
             self.operand_store(block, &detail.operands[0], expr)?;
 
@@ -3806,44 +3733,23 @@ impl<'s> Semantics<'s> {
 
             // get operands
             let lhs = self.operand_load(block, &detail.operands[0])?;
-            let mut rhs = self.operand_load(block, &detail.operands[1])?;
+            let bits = lhs.bits();
+            let count = self.shift_count(block, &detail.operands[1], bits)?;
+            let count_minus_one = Expr::sub(count.clone(), expr_const(1, bits))?;
 
-            if lhs.bits() != rhs.bits() {
-                rhs = Expr::zext(lhs.bits(), rhs)?;
-            }
-
-            // Do the SHR
-            let expr = Expr::shr(lhs.clone(), rhs.clone())?;
+            let expr = Expr::shr(lhs.clone(), count.clone())?;
 
             // CF is the last bit shifted out
-            // This will give us a bit mask if rhs is not equal to zero
-            let non_zero_mask = Expr::sub(
-                expr_const(0, rhs.bits()),
-                Expr::zext(
-                    rhs.bits(),
-                    Expr::cmpneq(rhs.clone(), expr_const(0, rhs.bits()))?,
-                )?,
-            )?;
-            // This shifts lhs right by (rhs - 1)
-            let cf = Expr::shr(
-                lhs.clone(),
-                Expr::sub(rhs.clone(), expr_const(1, rhs.bits()))?,
-            )?;
-            // Apply mask
-            let cf = Expr::trun(1, Expr::and(cf, non_zero_mask)?)?;
-            block.assign(scalar("CF", 1), cf);
+            let cf = self.lsb(Expr::shr(lhs.clone(), count_minus_one)?)?;
+            // OF is only defined for a count of one
+            let of = self.msb(lhs.clone())?;
+            let zf = Expr::cmpeq(expr.clone(), expr_const(0, bits))?;
+            let sf = self.msb(expr.clone())?;
 
-            // OF set to most significant bit of the original operand
-            block.assign(
-                scalar("OF", 1),
-                Expr::trun(
-                    1,
-                    Expr::shr(lhs.clone(), expr_const(lhs.bits() as u64 - 1, lhs.bits()))?,
-                )?,
-            );
-
-            self.set_zf(block, expr.clone())?;
-            self.set_sf(block, expr.clone())?;
+            self.set_flag_unless_zero_count(block, "CF", &count, cf)?;
+            self.set_flag_unless_zero_count(block, "OF", &count, of)?;
+            self.set_flag_unless_zero_count(block, "ZF", &count, zf)?;
+            self.set_flag_unless_zero_count(block, "SF", &count, sf)?;
 
             self.operand_store(block, &detail.operands[0], expr)?;
 
@@ -3864,44 +3770,29 @@ impl<'s> Semantics<'s> {
 
             // get operands
             let dst = self.operand_load(block, &detail.operands[0])?;
-            let rhs = self.operand_load(block, &detail.operands[1])?;
-            let count = self.operand_load(block, &detail.operands[2])?;
-
+            let src = self.operand_load(block, &detail.operands[1])?;
             let bits = dst.bits();
-            let tmp = Expr::or(
-                Expr::shl(
-                    Expr::zext(bits * 2, dst.clone())?,
-                    expr_const(bits as u64, bits * 2),
-                )?,
-                Expr::zext(bits * 2, rhs)?,
+            let count = self.shift_count(block, &detail.operands[2], bits)?;
+            let complement = Expr::sub(expr_const(bits as u64, bits), count.clone())?;
+
+            let expr = Expr::or(
+                Expr::shl(dst.clone(), count.clone())?,
+                Expr::shr(src, complement.clone())?,
             )?;
 
-            let shifted = Expr::shl(tmp.clone(), Expr::zext(tmp.bits(), count.clone())?)?;
-            // Extract the high bits (the SHLD result)
-            let result = Expr::trun(bits, Expr::shr(shifted, expr_const(bits as u64, bits * 2))?)?;
+            // CF is the last bit shifted out of the destination; OF (defined
+            // for a count of one) tells whether the sign changed
+            let cf = self.lsb(Expr::shr(dst.clone(), complement)?)?;
+            let of = Expr::xor(self.msb(expr.clone())?, self.msb(dst)?)?;
+            let zf = Expr::cmpeq(expr.clone(), expr_const(0, bits))?;
+            let sf = self.msb(expr.clone())?;
 
-            // CF = last bit shifted out = MSB of (tmp << (count-1))
-            let cf_shifted = Expr::shl(
-                tmp.clone(),
-                Expr::zext(
-                    tmp.bits(),
-                    Expr::sub(count.clone(), expr_const(1, count.bits()))?,
-                )?,
-            )?;
-            let cf = Expr::trun(
-                1,
-                Expr::shr(
-                    cf_shifted.clone(),
-                    expr_const(cf_shifted.bits() as u64 - 1, cf_shifted.bits()),
-                )?,
-            )?;
+            self.set_flag_unless_zero_count(block, "CF", &count, cf)?;
+            self.set_flag_unless_zero_count(block, "OF", &count, of)?;
+            self.set_flag_unless_zero_count(block, "ZF", &count, zf)?;
+            self.set_flag_unless_zero_count(block, "SF", &count, sf)?;
 
-            block.assign(scalar("CF", 1), cf);
-
-            self.set_zf(block, result.clone())?;
-            self.set_sf(block, result.clone())?;
-
-            self.operand_store(block, &detail.operands[0], result)?;
+            self.operand_store(block, &detail.operands[0], expr)?;
 
             block.index()
         };
@@ -3920,40 +3811,29 @@ impl<'s> Semantics<'s> {
 
             // get operands
             let dst = self.operand_load(block, &detail.operands[0])?;
-            let rhs = self.operand_load(block, &detail.operands[1])?;
-            let count = self.operand_load(block, &detail.operands[2])?;
-
+            let src = self.operand_load(block, &detail.operands[1])?;
             let bits = dst.bits();
-            let tmp = Expr::or(
-                Expr::zext(bits * 2, dst.clone())?,
-                Expr::shl(
-                    Expr::zext(bits * 2, rhs)?,
-                    expr_const(bits as u64, bits * 2),
-                )?,
+            let count = self.shift_count(block, &detail.operands[2], bits)?;
+            let complement = Expr::sub(expr_const(bits as u64, bits), count.clone())?;
+
+            let expr = Expr::or(
+                Expr::shr(dst.clone(), count.clone())?,
+                Expr::shl(src, complement)?,
             )?;
 
-            let shifted = Expr::shr(tmp.clone(), Expr::zext(tmp.bits(), count.clone())?)?;
-            // Extract the low bits (the SHRD result)
-            let result = Expr::trun(bits, shifted)?;
+            // CF is the last bit shifted out of the destination; OF (defined
+            // for a count of one) tells whether the sign changed
+            let cf = self.lsb(Expr::shr(dst.clone(), Expr::sub(count.clone(), expr_const(1, bits))?)?)?;
+            let of = Expr::xor(self.msb(expr.clone())?, self.msb(dst)?)?;
+            let zf = Expr::cmpeq(expr.clone(), expr_const(0, bits))?;
+            let sf = self.msb(expr.clone())?;
 
-            // CF = last bit shifted out (trun(1) is correct for right shift)
-            let cf = Expr::trun(
-                1,
-                Expr::shr(
-                    tmp.clone(),
-                    Expr::zext(
-                        tmp.bits(),
-                        Expr::sub(count.clone(), expr_const(1, count.bits()))?,
-                    )?,
-                )?,
-            )?;
+            self.set_flag_unless_zero_count(block, "CF", &count, cf)?;
+            self.set_flag_unless_zero_count(block, "OF", &count, of)?;
+            self.set_flag_unless_zero_count(block, "ZF", &count, zf)?;
+            self.set_flag_unless_zero_count(block, "SF", &count, sf)?;
 
-            block.assign(scalar("CF", 1), cf);
-
-            self.set_zf(block, result.clone())?;
-            self.set_sf(block, result.clone())?;
-
-            self.operand_store(block, &detail.operands[0], result)?;
+            self.operand_store(block, &detail.operands[0], expr)?;
 
             block.index()
         };
